@@ -148,6 +148,11 @@ type DnsController struct {
 	dnsForwarderIdleTTL    time.Duration
 	log                    *logrus.Logger
 	runtimeState           atomic.Pointer[dnsControllerRuntimeState]
+
+	// backgroundOwner is the facade the shared store's background goroutines (cache janitor, cache
+	// evictor, BPF update worker) run on; nil means this facade itself. Every later generation's
+	// ReuseForReload refreshes its runtime and behaviour, see followReload.
+	backgroundOwner *DnsController
 }
 
 func newDnsControllerStore() *dnsControllerStore {
@@ -224,11 +229,36 @@ func (c *DnsController) sharedStoreFacade() *DnsController {
 		dnsForwarderIdleTTL: c.dnsForwarderIdleTTL,
 		log:                 c.log,
 	}
+	facade.backgroundOwner = c.backgroundFacade()
 	c.copyBehaviorConfigTo(facade)
 	if rt := c.runtime(); rt != nil {
 		facade.runtimeState.Store(rt)
 	}
 	return facade
+}
+
+// backgroundFacade returns the facade that owns the shared store's background goroutines.
+func (c *DnsController) backgroundFacade() *DnsController {
+	if c.backgroundOwner != nil {
+		return c.backgroundOwner
+	}
+	return c
+}
+
+// followReload hands the replacement generation's runtime and behaviour to the facade the background
+// goroutines run on. Without it only the facade of the directly preceding generation was updated: from the
+// second reuse on, the janitor, the evictor and the BPF update worker kept calling the callbacks of a
+// retired generation, so an entry evicted by the janitor was withdrawn from a retired control plane's
+// domain-routing tracker and stayed in the live domain_routing_map.
+func (c *DnsController) followReload() {
+	owner := c.backgroundFacade()
+	if owner == c {
+		return
+	}
+	c.copyBehaviorConfigTo(owner)
+	if rt := c.runtime(); rt != nil {
+		owner.runtimeState.Store(rt)
+	}
 }
 
 func (c *DnsController) currentQtypePrefer() uint16 {
@@ -260,6 +290,7 @@ func (c *DnsController) ReuseForReload(option *DnsControllerOption, routing *dns
 	if err := c.TryUpdateRuntime(option, routing); err != nil {
 		return nil, err
 	}
+	c.followReload()
 	if err := c.ResetDnsForwarders(); err != nil && c.log != nil {
 		c.log.WithError(err).Warn("failed to retire stale DNS forwarders during reload reuse")
 	}
@@ -976,7 +1007,7 @@ func (c *DnsController) startBpfUpdateWorker() {
 		c.bpfUpdateStop = make(chan struct{})
 		c.bpfUpdateWg.Add(1)
 		c.bpfUpdateStopMu.Unlock()
-		go c.bpfUpdateWorker()
+		go c.backgroundFacade().bpfUpdateWorker()
 	})
 }
 
